@@ -565,7 +565,8 @@ def read_mod_def(line: str):
 
     name = mod_match.group(1)
     if name.lower() == "procedure":
-        trailing_line = line[mod_match.end(1) :]
+        # a trailing comment is not part of the procedure name list
+        trailing_line = line[mod_match.end(1) :].split("!")[0]
         pro_names = []
         line_split = trailing_line.split(",")
         for name in line_split:
